@@ -55,11 +55,23 @@ def mk_mm(cols, ci, pos, xmode):
         ext = np.array([[V1[ci]], [V1[SIG1[ci]]]])
     else:
         ext = np.array([P2[ci], P2[(ci * 3 + 4) % len(P2)]])
-    has_x = xmode == "all" or (xmode == "alt" and pos % 2 == 0) or (xmode == "alt2" and pos % 2 == 1)
+    intmode = xmode.endswith("+int")
+    xm = xmode.replace("+int", "")
+    has_x = xm == "all" or (xm == "alt" and pos % 2 == 0) or (xm == "alt2" and pos % 2 == 1)
     if has_x:
         ext_x = np.array([[100.0 * (pos + 1) + 10 * r + c for c in range(cols)] for r in range(2)])
     else:
         ext_x = None
+    if intmode:
+        # cases at even positions hand over integer-typed arrays (when they hold no NaN); cases at odd positions hold
+        # non-integer values: the table must keep them whatever the dtype of the first case was
+        if pos % 2 == 0:
+            if not np.isnan(ext).any():
+                ext = ext.astype(np.int64)
+                ext_x = None if ext_x is None else ext_x.astype(np.int64)
+        else:
+            ext = ext * 0.75
+            ext_x = None if ext_x is None else ext_x + 0.5
     return SimpleNamespace(ext=ext, ext_x=ext_x)
 
 
@@ -947,6 +959,7 @@ def shards(tier, seed):
     out = []
     xm = ["all", "none", "alt", "alt2"]
     variants = [(x, l, u) for x in xm for l in ("str", "list", "both") for u in (0, 1)]
+    variants += [("all+int", "str", 1), ("alt+int", "list", 0), ("none+int", "both", 1)]  # integer-typed cases mixed with non-integer ones
     for cols in (1, 2):
         nsplit = 6 if cols == 1 else 11
         for sp in range(nsplit):
